@@ -796,8 +796,7 @@ func recursionRule(c *Ctx, rule string) {
 		// or calls a helper that does both and whose error is propagated
 		eachCall(f, func(call ssa.CallInstruction) {
 			if sf := staticFn(call); sf != nil && inPkg[sf] && sf != f {
-				n := strings.ToLower(sf.Name())
-				if strings.Contains(n, "enter") || strings.Contains(n, "descend") || strings.Contains(n, "depth") {
+				{
 					i2, c2 := false, false
 					eachInstr(sf, func(_ *ssa.BasicBlock, _ int, ins ssa.Instruction) {
 						if st, ok := ins.(*ssa.Store); ok {
